@@ -52,6 +52,7 @@ type echoCfg struct {
 	reusePhase        int // sequential requests issued after the late answers were delivered
 	bigFrames         bool
 	padTokens         bool
+	hugeFrames        bool
 	seed              int64
 }
 
@@ -541,6 +542,10 @@ func runEcho(c *runner.Ctx, ec *echoCfg) *echoResult {
 				tok := fmt.Sprintf("t%d_%d_%d", c.Case, g, k)
 				if ec.padTokens && (g+k)%3 == 0 {
 					tok += "_" + strings.Repeat("x", 150+r.Intn(200))
+				}
+				if ec.hugeFrames && (g+k)%4 == 1 {
+					// request frames beyond 64 KiB (any chunking of a frame by a writer shows only here)
+					tok += "_" + strings.Repeat("y", 66000+r.Intn(140000))
 				}
 				oneCall(r, tok)
 			}
